@@ -1,6 +1,6 @@
 SPECIFICATION Spec
 CONSTANTS MaxDec = 6
   MaxFrames = 12
-  MaxGo = 3
+  MaxGo = 5
 INVARIANT Sound
 CHECK_DEADLOCK FALSE
